@@ -361,6 +361,10 @@ structure RCfg where
   /-- ... and when that decrement brings the count to 0 the object is finalized and freed on the spot (it is in no thread's
       table any more: no collector would ever visit it again) -/
   decrefFreesAtZero : Bool := true
+  /-- janet_chan_pack: when janet_marshal fails AFTER the pointer was already written into the transit buffer (an unmarshalable
+      value later in the same message), the failure branch gives the reference taken for the transit back (clean-up unmarshal
+      of the partial buffer with JANET_MARSHAL_DECREF) before the buffer is discarded -/
+  packFailDecref : Bool := true
   deriving Repr, DecidableEq
 
 structure RSt where
@@ -386,6 +390,8 @@ inductive RAct
   /-- the finalizer of a thread channel that still holds an undelivered message with a copy of the pointer runs (in whatever
       thread swept the carrier, or at its thread's exit): `janet_chan_deinit` → `janet_chan_unpack(.., 1)` → DECREF unmarshal -/
   | discard
+  /-- thread t tries to send a message that contains the object but fails to pack (ev/give raises): the buffer is discarded -/
+  | failSend (t : Nat)
   deriving DecidableEq, Repr
 
 def rstep (cfg : RCfg) (s : RSt) : RAct → RSt
@@ -405,6 +411,11 @@ def rstep (cfg : RCfg) (s : RSt) : RAct → RSt
                useAfterFree := s.useAfterFree || s.freed }
   | .drop t => { s with reach := fun u => if u = t then false else s.reach u }
   | .use t => if s.reach t = true then { s with useAfterFree := s.useAfterFree || s.freed } else s
+  | .failSend t =>
+    if t ∈ s.holds ∧ s.reach t = true then
+      { s with refcount := if cfg.increfBeforeSend && !cfg.packFailDecref then s.refcount + 1 else s.refcount,
+               useAfterFree := s.useAfterFree || s.freed }
+    else s
   | .discard =>
     if s.transit = 0 then s
     else if cfg.deinitDecref then
